@@ -74,7 +74,7 @@ def run(pid, tier, ev=None, vd=None, finish=True, accept=None):
             vd.nonconformance(f"TLC: OneWay invariant {r.violation} fails in the model")
         cases = r.payloads.get("CASE", [])
         jobs = tlc_cases_to_jobs(cases, tier, vlib.seed())
-        nrand = 1200 if tier == "quick" else 12000
+        nrand = 1200 if tier == "quick" else 40000
         jobs += og.random_cases(nrand, vlib.seed())
         jobs += induced_failures(vlib.seed())
         log(f"[{pid}] OneWay: {r.distinct} states, {len(cases)} TLC cases -> {len(jobs)} real edges to run")
